@@ -8,6 +8,8 @@ import (
 		"time"
 
 	"github.com/tokenized/pkg/bitcoin"
+	"github.com/tokenized/pkg/wire"
+	"github.com/tokenized/spynode/internal/platform/config"
 	"github.com/tokenized/spynode/internal/storage"
 	"verif.local/simrt"
 )
@@ -82,13 +84,32 @@ func mutationClass(m Mutation) string {
 }
 
 // c10scenario runs a chain scenario to completion (incl. a clean stop) and returns the run.
+// c10failClass: when non-empty, the failing operation is the failNth-th (0-based) operation of that
+// class (e.g. "write:blocks-file") instead of the failAt-th operation overall.
+type c10fail struct {
+	at    int
+	class string
+	nth   int
+}
+
 func c10scenario(c *Ctx, failAt int) (*chainRun, map[bitcoin.Hash32]bool, *SimDisk, bool) {
+	return c10scenarioF(c, c10fail{at: failAt})
+}
+
+func c10scenarioF(c *Ctx, f c10fail) (*chainRun, map[bitcoin.Hash32]bool, *SimDisk, bool) {
+	failAt := f.at
+	forceBoundary := strings.HasSuffix(f.class, ":blocks-file") && c.Scen.Bool(2, 3)
 	sc := genChainScenario(c, false)
 	sc.startFound = true
-	if c.Scen.Bool(1, 3) {
+	if c.Scen.Bool(1, 3) || forceBoundary {
 		// make file roll-over and reorganisations across the 1000-header boundary likely
 		sc.pre = pickFrom(c.Scen, 990, 995, 997, 998, 999)
 		sc.initLen = pickFrom(c.Scen, 2, 4, 8, 12)
+		if c.Scen.Bool(1, 2) && sc.pre < 999 {
+			// cross the boundary while still catching up (blocks are then added without a save per
+			// block, so the save of the full file at the roll-over is the only copy)
+			sc.initLen = 1000 - sc.pre + pickFrom(c.Scen, 1, 2, 4, 8)
+		}
 	}
 	cr := newChainRun(c, sc)
 	ns := cr.ns
@@ -101,9 +122,20 @@ func c10scenario(c *Ctx, failAt int) (*chainRun, map[bitcoin.Hash32]bool, *SimDi
 			announced[b.Hash] = true
 		}
 	}
-	if failAt >= 0 {
+	if failAt >= 0 || f.class != "" {
+		seen := 0
+		fired := false
 		ns.Disk.FailOp = func(n int, kind, key string) error {
-			if n == failAt {
+			hit := n == failAt
+			if f.class != "" {
+				hit = false
+				if !fired && mutationClass(Mutation{Op: kind, Key: key}) == f.class {
+					hit = seen == f.nth
+					seen++
+				}
+			}
+			if hit {
+				fired = true
 				c.FaultFired("F-disk-err")
 				simrt.Eventf("fault", "disk op #%d %s %s fails", n, kind, key)
 				ns.failedOp = kind + ":" + mutationClass(Mutation{Op: kind, Key: key})[len(kind)+1:]
@@ -123,7 +155,7 @@ func c10scenario(c *Ctx, failAt int) (*chainRun, map[bitcoin.Hash32]bool, *SimDi
 			cr.apply(ev)
 			note()
 		}
-		if failAt < 0 {
+		if failAt < 0 && f.class == "" {
 			ok, _ := cr.settle()
 			if !ok {
 				return // C01's business; no crash images from a run that did not converge
@@ -226,10 +258,17 @@ func runC10fail(c *Ctx) {
 	// non-trivial)
 	ops := pickFrom(c.Scen, 20, 40, 80, 160)
 	j := int(c.Scen.Choose(uint32(ops)))
+	f := c10fail{at: j}
+	if c.Scen.Bool(1, 2) {
+		// the n-th operation of one class, so that rare operations (the save of a full block file
+		// at a roll-over, removes during a revert, the reorg record) are hit as often as common ones
+		f = c10fail{at: -1, nth: int(c.Scen.Choose(4)),
+			class: pickStr(c.Scen, "write:blocks-file", "write:blocks-file", "write:blocks-file", "remove:blocks-file", "remove:blocks-file", "read:blocks-file", "write:unconfirmed", "write:tx-state", "write:block-txids", "write:reorg-record", "remove:reorg-record", "write:peers")}
+	}
 	c.FaultConfigured("F-disk-err")
-	cr, announced, _, _ := c10scenario(c, j)
+	cr, announced, _, _ := c10scenarioF(c, f)
 	ns := cr.ns
-	c.Res.Summary = fmt.Sprintf("op #%d of ~%d fails: %s", j, ops, cr.sc.String())
+	c.Res.Summary = fmt.Sprintf("op #%d of ~%d / %s#%d fails: %s", j, ops, f.class, f.nth, cr.sc.String())
 	done := false
 	simrt.Go("driver2", func() {
 		defer func() { done = true }()
@@ -237,6 +276,27 @@ func runC10fail(c *Ctx) {
 		ok, why := cr.settleWithin(90 * time.Second)
 		if ok {
 			c.Probe("survived_without_restart")
+			// "with a linked chain in memory and on disk": what a clean stop leaves behind must load
+			// and lead to the peer's chain as well
+			if ns.failedOp != "" && !ns.RunDone {
+				ns.Disk.FailOp = nil
+				if !ns.StopNode(10 * time.Minute) {
+					c.Violate("stop-hang", "after-disk-error", "Stop did not complete after an injected storage error")
+					return
+				}
+				var clause, msg string
+				simrt.NoPreempt(func() { clause, msg = loadedChainProblem(ns, ns.Disk, announced) })
+				if clause != "" {
+					c.Violate("error-"+clause, "survived/op="+ns.failedOp, "storage operation (%s) returned an error, the node carried on and converged, but after a clean stop: %s", ns.failedOp, msg)
+					return
+				}
+				ns.Touch()
+				ns.StartNode()
+				if ok2, why2 := cr.settle(); !ok2 {
+					c.Violate("error-not-recovered", "survived/op="+ns.failedOp, "storage operation (%s) returned an error; the node converged, but a node restarted on what it saved does not: %s", ns.failedOp, why2)
+					return
+				}
+			}
 		} else {
 			// recover on restart?
 			c.Probe("needed_restart")
@@ -290,4 +350,370 @@ func init() {
 	Register(&Check{Prop: "C10", Sub: "single-op-failure", Weight: 1, Real: real, Stub: stub,
 		Rule: "the same scenario family with one storage operation (read, write or delete; index drawn from the tape over the scenario's operation count) returning an error: the node must converge anyway or after a clean restart, with a linked chain in memory and on disk.",
 		Run:  runC10fail})
+}
+
+// ---- component level: crash points of the block store alone ---------------------------------------
+//
+// Deep reverts (tip one or two 1000-header files above the fork) are out of reach of the whole-node
+// scenarios' budgets; the block repository is therefore also driven directly: add / AddNext / save /
+// revert sequences around the file boundaries with the mutation log recorded, then EVERY prefix of
+// the log is loaded into a fresh repository.
+
+func runC10store(c *Ctx) {
+	t := c.Scen
+	cases := 3
+	if c.Tier == "thorough" {
+		cases = 12
+	}
+	for k := 0; k < cases; k++ {
+		disk := NewSimDisk()
+		disk.RemoveMissingErr = t.Bool(1, 2)
+		s := newC09sut(disk)
+		var desc strings.Builder
+		fmt.Fprintf(&desc, "remove-missing-errors=%v; ", disk.RemoveMissingErr)
+		if err := s.repo.Load(s.ctx); err != nil {
+			c.Violate("load-error", "empty-disk", "%v", err)
+			return
+		}
+		g := mainNetGenesisHeader()
+		m := &c09model{hs: []wire.BlockHeader{g}, hashes: []bitcoin.Hash32{*g.BlockHash()}}
+		m.useNext = func() bool { return t.Bool(1, 2) }
+		ever := map[bitcoin.Hash32]wire.BlockHeader{*g.BlockHash(): g}
+		salt := int(t.Choose(1 << 20))
+		add := func(n int) bool {
+			for i := 0; i < n; i++ {
+				if err := m.add(s, &salt); err != nil {
+					c.Violate("op-error", "add", "%v after %s", err, desc.String())
+					return false
+				}
+				ever[m.hashes[m.tip()]] = m.hs[m.tip()]
+			}
+			fmt.Fprintf(&desc, "add*%d; ", n)
+			return true
+		}
+		if !add([]int{3, 997, 999, 1000, 1001, 1005, 1500, 1999, 2000, 2003, 2500, 3001}[t.Choose(12)]) {
+			return
+		}
+		nops := 2 + int(t.Choose(5))
+		reverted := false
+		for i := 0; i < nops; i++ {
+			switch t.Choose(6) {
+			case 0, 1:
+				if !add(pickFrom(t, 1, 2, 5, 998, 1000, 1003)) {
+					return
+				}
+			case 2:
+				if err := s.repo.Save(s.ctx); err != nil {
+					c.Violate("op-error", "save", "%v after %s", err, desc.String())
+					return
+				}
+				desc.WriteString("save; ")
+			default:
+				tip := m.tip()
+				target := biasedHeight(c, tip)
+				if target < 0 {
+					target = 0
+				}
+				if target >= tip {
+					target = tip - 1 - int(t.Choose(3))
+				}
+				if target < 0 {
+					continue
+				}
+				if t.Bool(1, 3) {
+					if err := s.repo.Save(s.ctx); err == nil {
+						desc.WriteString("save; ")
+					}
+				}
+				if err := s.repo.Revert(s.ctx, target); err != nil {
+					c.Violate("op-error", "revert", "Revert(%d) from %d: %v after %s", target, tip, err, desc.String())
+					return
+				}
+				m.hs, m.hashes = m.hs[:target+1], m.hashes[:target+1]
+				fmt.Fprintf(&desc, "revert(%d<-%d); ", target, tip)
+				reverted = true
+				if tip/1000-target/1000 >= 2 {
+					c.Probe("revert_across_two_files")
+				} else if tip/1000 != target/1000 {
+					c.Probe("revert_across_file_boundary")
+				}
+			}
+		}
+		if t.Bool(2, 3) {
+			s.repo.Save(s.ctx)
+			desc.WriteString("save; ")
+		}
+		_ = reverted
+		log := disk.Log
+		empty := NewSimDisk()
+		for i := 0; i <= len(log); i++ {
+			img := ImageAt(empty, log, i)
+			after := "start"
+			if i > 0 {
+				after = mutationClass(log[i-1])
+			}
+			c.NoteCase(true, fmt.Sprintf("%s#%d", desc.String(), i))
+			repo := storage.NewBlockRepository(config.Config{Net: bitcoin.MainNet}, img)
+			var err error
+			if p := guard(func() { err = repo.Load(quietCtx()) }); p != "" {
+				c.Violate("crash-load-error", "store/panic/after="+after, "loading the image after storage mutation %d of %d (%s) panicked: %s; history: %s", i, len(log), after, p, desc.String())
+				return
+			}
+			if err != nil {
+				c.Violate("crash-load-error", "store/after="+after, "the image after storage mutation %d of %d (%s) does not load: %v; history: %s", i, len(log), after, err, desc.String())
+				return
+			}
+			lh := repo.LastHeight()
+			var prev bitcoin.Hash32
+			for h := 0; h <= lh; h++ {
+				hdr, err := repo.Header(quietCtx(), h)
+				if err != nil {
+					c.Violate("crash-load-error", "store/header/after="+after, "image %d of %d (%s): Header(%d) of a loaded chain of height %d fails: %v; history: %s", i, len(log), after, h, lh, err, desc.String())
+					return
+				}
+				hh := *hdr.BlockHash()
+				if _, ok := ever[hh]; !ok {
+					c.Violate("crash-mixed", "store/foreign-header", "image %d of %d: loaded header at height %d was never added", i, len(log), h)
+					return
+				}
+				if h > 0 && hdr.PrevBlock != prev {
+					c.Violate("crash-unlinked", "store/after="+after, "image %d of %d (%s): the loaded chain (height %d) is not linked at height %d: a mixture of an old and a new branch; history: %s", i, len(log), after, lh, h, desc.String())
+					return
+				}
+				if hgt, ok := repo.Height(&hh); !ok || hgt != h {
+					c.Violate("crash-unlinked", "store/height-map", "image %d of %d: Height(Hash(%d)) = %d,%v", i, len(log), h, hgt, ok)
+					return
+				}
+				prev = hh
+			}
+			c.Probe("store_images_checked")
+		}
+		if k == 0 {
+			c.Res.Summary = desc.String()
+		}
+	}
+	c.Res.Nontrivial = true
+}
+
+func init() {
+	Register(&Check{Prop: "C10", Sub: "blockstore-crash-points", Weight: 1,
+		Real: []string{"internal/storage.BlockRepository (Load, Add, AddNext, Save, Revert)"},
+		Stub: []string{"disk: simdisk with mutation log (both remove-missing semantics); crash images = first i mutations, all i"},
+		Req:  []string{"store_images_checked", "revert_across_file_boundary", "revert_across_two_files"},
+		Rule: "per case: bulk add to a size around a 1000-header file boundary (3..3001), then 2-6 of {add 1..1003 via Add or AddNext, save, revert to a biased target (optionally saved first)}; the storage mutation log is recorded and EVERY prefix is loaded into a fresh repository: it must load, be hash-linked from genesis to its tip, contain only headers that were added, and answer Height(Hash(h)) = h.",
+		Run:  runC10store})
+}
+
+// ---- component level: one failing storage operation, every position -----------------------------
+
+type c10sop struct {
+	kind   string // add | save | revert
+	n      int    // add: how many
+	next   []bool // add: per header, through AddNext
+	target int    // revert
+}
+
+// c10storeExec runs a history on a fresh disk with storage operation failAt (-1: none) failing once.
+// The caller reacts to an error the way the node does: save what it has and try the step again.
+// Returns the model, the repository, the disk and the number of storage operations used.
+func c10storeExec(hist []c10sop, removeMissingErr bool, failAt int, salt0 int) (*c09model, *c09sut, *SimDisk, string, string) {
+	disk := NewSimDisk()
+	disk.RemoveMissingErr = removeMissingErr
+	failedOp := ""
+	if failAt >= 0 {
+		disk.FailOp = func(n int, kind, key string) error {
+			if n == failAt {
+				failedOp = mutationClass(Mutation{Op: kind, Key: key})
+				return ErrInjected
+			}
+			return nil
+		}
+	}
+	s := newC09sut(disk)
+	if err := s.repo.Load(s.ctx); err != nil {
+		if err = s.repo.Load(s.ctx); err != nil {
+			return nil, s, disk, failedOp, "load fails twice: " + err.Error()
+		}
+	}
+	g := mainNetGenesisHeader()
+	m := &c09model{hs: []wire.BlockHeader{g}, hashes: []bitcoin.Hash32{*g.BlockHash()}}
+	salt := salt0
+	retry := func(f func() error) error {
+		err := f()
+		if err == nil {
+			return nil
+		}
+		s.repo.Save(s.ctx) // what Node.Run does on its way to a reconnect
+		return f()
+	}
+	for _, op := range hist {
+		switch op.kind {
+		case "add":
+			for i := 0; i < op.n; i++ {
+				salt++
+				hdr := wire.BlockHeader{Version: 1, PrevBlock: m.hashes[m.tip()], MerkleRoot: dsha([]byte(fmt.Sprint("m", salt))),
+					Timestamp: uint32(1500000000 + salt), Bits: 0x1d00ffff, Nonce: uint32(salt)}
+				useNext := op.next[i]
+				err := retry(func() error {
+					if useNext {
+						if s.repo.LastHeight() > m.tip() {
+							return nil // the failed attempt had added it after all
+						}
+						ok, err := s.repo.AddNext(s.ctx, &hdr)
+						if err == nil && !ok {
+							return fmt.Errorf("AddNext refused the next header at height %d", m.tip()+1)
+						}
+						return err
+					}
+					if s.repo.LastHeight() > m.tip() {
+						return nil
+					}
+					return s.repo.Add(s.ctx, &hdr)
+				})
+				if err != nil {
+					return m, s, disk, failedOp, fmt.Sprintf("add at height %d fails twice: %v", m.tip()+1, err)
+				}
+				m.hs = append(m.hs, hdr)
+				m.hashes = append(m.hashes, *hdr.BlockHash())
+			}
+		case "save":
+			if err := retry(func() error { return s.repo.Save(s.ctx) }); err != nil {
+				return m, s, disk, failedOp, "save fails twice: " + err.Error()
+			}
+		case "revert":
+			t := op.target
+			if t >= m.tip() {
+				continue
+			}
+			if err := retry(func() error { return s.repo.Revert(s.ctx, t) }); err != nil {
+				return m, s, disk, failedOp, fmt.Sprintf("revert to %d fails twice: %v", t, err)
+			}
+			m.hs, m.hashes = m.hs[:t+1], m.hashes[:t+1]
+		}
+	}
+	disk.FailOp = nil
+	if err := s.repo.Save(s.ctx); err != nil {
+		return m, s, disk, failedOp, "final save: " + err.Error()
+	}
+	return m, s, disk, failedOp, ""
+}
+
+func c10storeSame(repo *storage.BlockRepository, m *c09model) string {
+	if lh := repo.LastHeight(); lh != m.tip() {
+		return fmt.Sprintf("height %d, expected %d", lh, m.tip())
+	}
+	for h := 0; h <= m.tip(); h++ {
+		hdr, err := repo.Header(quietCtx(), h)
+		if err != nil {
+			return fmt.Sprintf("Header(%d) of %d fails: %v", h, m.tip(), err)
+		}
+		if *hdr.BlockHash() != m.hashes[h] {
+			return fmt.Sprintf("header at height %d of %d is not the one that was added there", h, m.tip())
+		}
+	}
+	return ""
+}
+
+func runC10storeFail(c *Ctx) {
+	t := c.Scen
+	cases := 2
+	if c.Tier == "thorough" {
+		cases = 6
+	}
+	for k := 0; k < cases; k++ {
+		var hist []c10sop
+		var desc strings.Builder
+		tip := 0
+		add := func(n int) {
+			op := c10sop{kind: "add", n: n}
+			mode := t.Choose(3)
+			for i := 0; i < n; i++ {
+				op.next = append(op.next, mode == 1 || (mode == 2 && t.Bool(1, 2)))
+			}
+			hist = append(hist, op)
+			tip += n
+			fmt.Fprintf(&desc, "add*%d(mode %d); ", n, mode)
+		}
+		add([]int{3, 990, 997, 999, 1000, 1001, 1005, 1999, 2000, 2003}[t.Choose(10)])
+		for i := 2 + int(t.Choose(4)); i > 0; i-- {
+			switch t.Choose(5) {
+			case 0, 1:
+				add(pickFrom(t, 1, 2, 5, 12, 998, 1000))
+			case 2:
+				hist = append(hist, c10sop{kind: "save"})
+				desc.WriteString("save; ")
+			default:
+				target := biasedHeight(c, tip)
+				if target < 0 || target >= tip {
+					target = tip - 1 - int(t.Choose(3))
+				}
+				if target < 0 {
+					continue
+				}
+				hist = append(hist, c10sop{kind: "revert", target: target})
+				fmt.Fprintf(&desc, "revert(%d<-%d); ", target, tip)
+				tip = target
+			}
+		}
+		rme := t.Bool(1, 2)
+		salt0 := int(t.Choose(1 << 20))
+		// fault-free pass: counts the storage operations and must itself be right
+		m0, s0, d0, _, problem := c10storeExec(hist, rme, -1, salt0)
+		if problem == "" {
+			problem = c10storeSame(s0.repo, m0)
+		}
+		if problem != "" {
+			c.Violate("op-error", "store/fault-free", "%s; history: %s", problem, desc.String())
+			return
+		}
+		nOps := d0.OpCount
+		// every position (thorough) or up to 24 evenly spread ones plus the last few (quick)
+		var js []int
+		step := 1
+		if c.Tier != "thorough" && nOps > 24 {
+			step = nOps/24 + 1
+		}
+		for j := 0; j < nOps; j += step {
+			js = append(js, j)
+		}
+		for _, j := range js {
+			m, s, disk, failed, problem := c10storeExec(hist, rme, j, salt0)
+			c.NoteCase(true, fmt.Sprintf("%s!%d", desc.String(), j))
+			if failed == "" {
+				continue
+			}
+			c.FaultFired("F-disk-err")
+			c.Probe("store_single_failure_checked")
+			if problem != "" {
+				c.Violate("error-not-recovered", "store/op="+failed, "storage operation #%d (%s) fails once and the step is tried again after a save: %s; history: %s", j, failed, problem, desc.String())
+				return
+			}
+			if why := c10storeSame(s.repo, m); why != "" {
+				c.Violate("error-unlinked", "store/memory/op="+failed, "after storage operation #%d (%s) failed once, the running repository: %s; history: %s", j, failed, why, desc.String())
+				return
+			}
+			fresh := storage.NewBlockRepository(config.Config{Net: bitcoin.MainNet}, disk.Clone())
+			if err := fresh.Load(quietCtx()); err != nil {
+				c.Violate("error-crash-load-error", "store/disk/op="+failed, "after storage operation #%d (%s) failed once and everything was saved, a new repository does not load: %v; history: %s", j, failed, err, desc.String())
+				return
+			}
+			if why := c10storeSame(fresh, m); why != "" {
+				c.Violate("error-unlinked", "store/disk/op="+failed, "after storage operation #%d (%s) failed once and everything was saved, a newly loaded repository: %s; history: %s", j, failed, why, desc.String())
+				return
+			}
+		}
+		if k == 0 {
+			c.Res.Summary = fmt.Sprintf("%d storage operations, %d failure positions: %s", nOps, len(js), desc.String())
+		}
+	}
+	c.Res.Nontrivial = true
+}
+
+func init() {
+	Register(&Check{Prop: "C10", Sub: "blockstore-single-failure", Weight: 1,
+		Real: []string{"internal/storage.BlockRepository (Load, Add, AddNext, Save, Revert)"},
+		Stub: []string{"disk: simdisk with one failing operation; the caller (save, then try the step again) stands in for Node.Run's reconnect"},
+		Req:  []string{"store_single_failure_checked"},
+		Rule: "per case a history of adds (Add/AddNext), saves and reverts around the 1000-header file boundaries is run once fault-free to count its storage operations, then once per failure position (thorough: every position; quick: 24 evenly spread) with that one operation returning an error; the caller saves and tries the step again like the node does. Afterwards the running repository and a repository newly loaded from the disk must both equal the model chain at every height.",
+		Run:  runC10storeFail})
 }
